@@ -1,3 +1,4 @@
+import ApolloModel.Proofs.ParserTree12
 import ApolloModel.Proofs.AstDocument3
 import ApolloModel.Proofs.AstText7
 import ApolloModel.Proofs.AstText8
@@ -284,5 +285,96 @@ theorem from_cst_agrees_witness_executable :
 theorem from_cst_agrees_witness_type_system :
     FromCst.modelsAgree "\"\"\"d\"\"\" type T implements I & J @d { \"x\" f(a: Int = 1 @d): [T!]! @d } extend union U = A | B interface I { a: Int } enum E @d { \"v\" A B @d } input N { a: [Int] = [1] } scalar S @d directive @d(a: Int) repeatable on FIELD | OBJECT schema @d { query: T mutation: T } extend schema { subscription: T } extend type T { g: Int } extend enum E { C } extend input N { b: Int } extend scalar S @e extend interface I @d" = true := by
   decide +kernel
+
+/-! ## Pipeline: the CST parser followed by `from_cst.rs`, instead of the reference parser
+
+The round-trip theorems above read the printed tokens back with the reference parser `pDocument`.  This section ties the
+REAL pipeline model to it — `Parse.parse` (the rowan tree built by apollo-parser's grammar functions) followed by
+`FromCst` (the CST → AST conversion, `from_cst.rs`) — stage by stage.  The instrument is the acceptance calculus
+extended to the builder (`Parse.Tr`, Proofs/ParserTree1–4.lean): `Tr E H m R` says what an error-free run of the grammar
+function `m` consumed AND what it appended to the children vector of the rowan builder (junk tokens — whitespace, comments,
+commas — aside); leaf nodes (`NAME[IDENT]`, …) are exact, because `from_cst.rs` reads them through `first_token`.
+On the conversion side (Proofs/ParserTree3.lean) `support::child / children / token` are computed on the plain child list
+of a node, whatever the byte offsets and junk tokens.
+
+Stage (i), the type entry point, is complete: `type_cst_of_accepted`, `type_pipeline_agrees`, `pipeline_print_parse_type`.
+Stage (ii), values (all kinds, lists and objects of any nesting, strings through the C06 decoder): `value_pipeline`,
+`pipeline_print_parse_value`; `string_tokens_decode` is the lexer fact it needs.
+-/
+section Pipeline
+open Apollo.Parse Apollo.Rowan
+
+/-- **The tree of an accepted type** (`Parser::parse_type`, no token limit, any recursion limit): no error ⇒ the source
+    lexes cleanly, its significant tokens are `tTy t ++ [EOF]`, and the tree returned is `TyTree t`:
+    `NAMED_TYPE[NAME[IDENT n]]`, `LIST_TYPE[ [ Type ] ]`, `NON_NULL_TYPE[Type !]`, junk tokens between children only. -/
+theorem type_cst_of_accepted (rl : Nat) (src : Parse.Str) (root : Elem)
+    (h : (parse .type none rl src).outcome = .tree root) (herr : (parse .type none rl src).errors = []) :
+    Parse.LexClean src ∧ ∃ t ts e, Parse.sig (Parse.srcToks src) = ts ++ [e] ∧ e.kind = .eof ∧
+      ts.map Parse.astOfV = (tTy t).map some ∧ FromCst.TyTree t root :=
+  Parse.parseType_cst rl src root h herr
+
+/-- **Stage (i): the pipeline agrees with the reference parser on types.**  For an accepted source, `impl Convert for
+    cst::Type` on the tree of `Parser::parse_type` (at any byte offset, with any location set, fuel = size of the tree)
+    and `pTy` on the significant tokens return the same type. -/
+theorem type_pipeline_agrees (rl : Nat) (src : Parse.Str) (root : Elem)
+    (h : (parse .type none rl src).outcome = .tree root) (herr : (parse .type none rl src).errors = []) :
+    ∃ t ts e x, Parse.sig (Parse.srcToks src) = ts ++ [e] ∧ e.kind = .eof ∧ ts.map Parse.astOfV = x.map some ∧
+      (∀ (R : List FromCst.Loc) (s : Nat) (hp : ∀ y ∈ nameRanges root s, y ∈ R),
+        ∃ l, FromCst.cType (FromCst.size root) ⟨(root, s), hp⟩ = some (t, l)) ∧
+      pTy (szTy t) x = some (t, []) :=
+  Parse.parseType_fromCst_agrees rl src root h herr
+
+/-- **pipeline_print_parse_type.**  CST parser + conversion read the printed text of every type `t` (names valid,
+    nesting within the recursion limit) back to `t` itself.  (With C10's `type_display_parse_roundtrip` this closes the
+    remark there that the CST → AST step for types had no Lean model.) -/
+theorem pipeline_print_parse_type (t : Ty) (hwf : tyNamesWf t = true) (rl : Nat) (hd : Parse.tyDepth t ≤ rl) :
+    (parse .type none rl (tyText t)).errors = [] ∧
+    ∃ root, (parse .type none rl (tyText t)).outcome = .tree root ∧
+      ∀ (R : List FromCst.Loc) (s : Nat) (hp : ∀ y ∈ nameRanges root s, y ∈ R),
+        ∃ l, FromCst.cType (FromCst.size root) ⟨(root, s), hp⟩ = some (t, l) := by
+  obtain ⟨h1, root, h2, _, h3⟩ := Parse.pipeline_print_parse_type t hwf rl hd
+  exact ⟨h1, root, h2, h3⟩
+
+/-- the lexer facts the tree calculus carries (every Name token is a valid name; text that starts like a name is a Name
+    token) hold for the token queue of every source text -/
+theorem lexer_facts_for_every_source (src : Parse.Str) : Parse.LQ (Parse.srcToks src) := Parse.lq_srcToks src
+
+/-- every String token the lexer model hands to the parser is decoded by `String::from(&cst::StringValue)`: quoted
+    strings are in the lexer's exact language (four hex digits after `\u`, no surrogates), block strings end with their
+    closing quotes — none of the `unwrap`s / slices of node_ext.rs can fail on a token of an error-free lexing -/
+theorem string_tokens_decode (src : Parse.Str) :
+    ∀ t ∈ Parse.srcToks src, t.kind = .stringValue → (Strs.decodeStringToken t.data).isSome = true :=
+  Parse.strQ_srcToks src
+
+/-- **Stage (ii): values.**  An error-free run of `value.rs::value` (any fuel, constant or not, from any state of the
+    calculus: `St` = no token limit, builder invariant, queue ending in EOF, lexer facts) consumed the tokens of ONE value
+    `v` — well-formed, without variables in a constant context —, appended exactly one element `ev` besides junk tokens,
+    `impl Convert for cst::Value` on `ev` (any offset, any location set, fuel = size of `ev`) returns `v`, and the
+    reference parser `pValue` on the same tokens returns `v` too — or the run stopped at the end of input inside an
+    unclosed list (`AtEof`, reported by the caller's closing token). -/
+theorem value_pipeline (n : Nat) (c p : Bool) (s s' : PState) (st : Parse.St s)
+    (h : (Parse.value n c p).run s = .ok () s') (hnd : ¬ Parse.Doomed s') :
+    ∃ cs added, Parse.Toks s = cs ++ Parse.Toks s' ∧ s'.builder.children = s.builder.children ++ added ∧
+      ((∃ v ev, (Parse.sig cs).map Parse.astOfV = (tValue v).map some ∧ Parse.valueOk c v = true ∧
+          Parse.sigE added = [ev] ∧ FromCst.ValTree v ev ∧
+          (∀ (R : List FromCst.Loc) (o : Nat) (hp : ∀ y ∈ nameRanges ev o, y ∈ R),
+            ∃ l, FromCst.cValue (FromCst.size ev) ⟨(ev, o), hp⟩ = some (v, l)) ∧
+          pValue (szValue v) (tValue v) = some (v, []))
+        ∨ Parse.AtEof s') :=
+  Parse.value_pipeline n c p s s' st h hnd
+
+/-- **pipeline_print_parse_value.**  If the tokens consumed by an error-free run of `value` spell the printed tokens
+    `tValue v0` of a well-formed value `v0` (C05 `value_accept_complete_total`: such a run exists whenever `v0` fits the
+    recursion limit), the element built converts to `v0` itself. -/
+theorem pipeline_print_parse_value (n : Nat) (c p : Bool) (s s' : PState) (st : Parse.St s)
+    (h : (Parse.value n c p).run s = .ok () s') (hnd : ¬ Parse.Doomed s') (hne : ¬ Parse.AtEof s')
+    (v0 : Value) (hwf : wfValue v0 = true) (cs : List Parse.Tok) (ht : Parse.Toks s = cs ++ Parse.Toks s')
+    (hspell : (Parse.sig cs).map Parse.astOfV = (tValue v0).map some) :
+    ∃ added ev, s'.builder.children = s.builder.children ++ added ∧ Parse.sigE added = [ev] ∧
+      ∀ (R : List FromCst.Loc) (o : Nat) (hp : ∀ y ∈ nameRanges ev o, y ∈ R),
+        ∃ l, FromCst.cValue (FromCst.size ev) ⟨(ev, o), hp⟩ = some (v0, l) :=
+  Parse.pipeline_print_parse_value n c p s s' st h hnd hne v0 hwf cs ht hspell
+
+end Pipeline
 
 end Apollo.C08
